@@ -1,4 +1,5 @@
 import HqModel.Lemmas.AllocScatter
+import HqModel.Lemmas.AllocAdmit
 /-!
 `compact` on a grouped resource: every group set the model accepts as solver answer (`EntryLp.feasible`) contains the
 amount (`ScatterOk`), hence the round-robin loop inside the chosen groups terminates; and when the admission test
@@ -267,5 +268,307 @@ theorem optimum_ne_none {lp : Lp} (h : ∀ e ∈ lp.entries, ∃ S ∈ allSubset
   apply maxInt?_ne_none
   intro hnil
   exact foldr_feasible_ne_nil lp.entries h (List.map_eq_nil_iff.mp hnil)
+
+/-! ### plumbing: `claim_resources` with compact entries on grouped resources -/
+
+/-- the first loop of `claim_resources` leaves alone every pool whose entries are all skipped (coupled) -/
+theorem claimPlain_untouched {picks : Choices} {pools pools' : List Pool} {rq : Request} {al al' : Allocation}
+    (h : claimPlain picks pools rq al = .ok (pools', al')) (r : Nat)
+    (hskip : ∀ e ∈ rq, e.rid = r → ∀ pool, pools[r]? = some pool →
+      (pool.isGroups && e.policy.relevantForCoupling) = true) : pools'[r]? = pools[r]? := by
+  induction rq generalizing pools al with
+  | nil =>
+    simp only [claimPlain, Except.ok.injEq, Prod.mk.injEq] at h
+    rw [h.1]
+  | cons e es ih =>
+    simp only [claimPlain] at h
+    split at h
+    · cases h
+    · rename_i pool hp
+      have hskip' : ∀ pools₁ : List Pool, pools₁[r]? = pools[r]? → ∀ e' ∈ es, e'.rid = r → ∀ pool',
+          pools₁[r]? = some pool' → (pool'.isGroups && e'.policy.relevantForCoupling) = true := by
+        intro pools₁ hsame e' he' hr pool' hp'
+        exact hskip e' (List.mem_cons_of_mem _ he') hr pool' (by rw [← hsame]; exact hp')
+      split at h
+      · exact ih h (hskip' pools rfl)
+      · rename_i hns
+        split at h
+        · cases h
+        · rename_i pool' ra hc
+          have hne : e.rid ≠ r := by
+            intro heq
+            apply hns
+            exact hskip e (by simp) heq pool (by rw [← heq]; exact hp)
+          have hsame : (setPool pools e.rid pool')[r]? = pools[r]? := by
+            simp only [setPool]
+            rw [List.getElem?_set_ne hne]
+          rw [ih h (hskip' _ hsame), hsame]
+
+theorem claimCoupled_nostop {picks : Choices} {pools : List Pool} {es : List Entry} {sets : List (List Nat)}
+    {al : Allocation} (hnd : (es.map (·.rid)).Nodup)
+    (h : ∀ x ∈ es.zip sets, ∃ pool : Pool, pools[x.1.rid]? = some pool ∧
+      NoStop (pool.claimWithMask x.1 x.2 (picks.pick x.1.rid))) :
+    NoStop (claimCoupled picks pools es sets al) := by
+  induction es generalizing pools sets al with
+  | nil => simp only [claimCoupled]; exact NoStop.ok _
+  | cons e es ih =>
+    cases sets with
+    | nil => simp only [claimCoupled]; exact NoStop.ok _
+    | cons S sets =>
+      obtain ⟨hne, hnd'⟩ := List.nodup_cons.mp hnd
+      obtain ⟨pool, hp, hcl⟩ := h (e, S) (by simp)
+      simp only [claimCoupled, hp]
+      cases hr : pool.claimWithMask e S (picks.pick e.rid) with
+      | error er =>
+        intro e' he'
+        simp only [Except.error.injEq] at he'
+        subst he'
+        exact hcl _ hr
+      | ok v =>
+        obtain ⟨pool', ra⟩ := v
+        dsimp only
+        apply ih hnd'
+        intro x hx
+        obtain ⟨pool₂, hp₂, hcl₂⟩ := h x (List.mem_cons_of_mem _ hx)
+        have hxe : x.1 ∈ es := (List.of_mem_zip hx).1
+        have hrid : x.1.rid ≠ e.rid := by
+          intro heq
+          apply hne
+          exact List.mem_map.mpr ⟨x.1, hxe, heq⟩
+        refine ⟨pool₂, ?_, hcl₂⟩
+        simp only [setPool]
+        rw [List.getElem?_set_ne (fun h' => hrid h'.symm)]
+        exact hp₂
+
+theorem coupled_nodup {pools : List Pool} {rq : Request} (hnd : (rq.map (·.rid)).Nodup) :
+    ((coupledEntries pools rq).map (·.rid)).Nodup := by
+  unfold coupledEntries
+  exact hnd.sublist (List.filter_sublist.map _)
+
+/-- **`try_allocate` does not stop**: list / range / sum resources with any policy; grouped resources with `all`,
+`scatter` or `compact` (no `tight`, no strict policy). `hw`: the coupling items address existing groups. -/
+theorem tryAllocate_nostop_compact {U} {s : State} (hinv : Inv2 U s) (hU : ∀ r g, (U r g).Nodup) (h : Nat)
+    (rq : Request) (ch : Choices) (hnd : (rq.map (·.rid)).Nodup)
+    (hpol : ∀ e ∈ rq, ∀ full gs, s.pools[e.rid]? = some (.groups full gs) →
+      e.policy = .all ∨ e.policy = .scatter ∨ e.policy = .compact)
+    (hcap : ∀ e ∈ rq, s.pools[e.rid]? ≠ some .empty)
+    (hw : (mkLp s.concise (coupledEntries s.pools rq) s.weights).weightOob = false) :
+    NoStop (tryAllocate s h rq ch) := by
+  -- coupled entries: exactly the compact entries on grouped pools
+  have hcoupled : ∀ e ∈ coupledEntries s.pools rq, e ∈ rq ∧ e.policy = .compact ∧
+      ∃ full gs, s.pools[e.rid]? = some (.groups full gs) := by
+    intro e he
+    obtain ⟨hin, hc⟩ := List.mem_filter.mp he
+    cases hp : s.pools[e.rid]? with
+    | none => simp [hp] at hc
+    | some pool =>
+      cases pool with
+      | groups full gs =>
+        refine ⟨hin, ?_, full, gs, rfl⟩
+        rcases hpol e hin full gs hp with h1 | h1 | h1
+        · simp [hp, Pool.isGroups, h1, Policy.relevantForCoupling] at hc
+        · simp [hp, Pool.isGroups, h1, Policy.relevantForCoupling] at hc
+        · exact h1
+      | _ => simp [hp, Pool.isGroups] at hc
+  have hnonforced : (coupledEntries s.pools rq).all (fun e => !e.policy.forced) = true := by
+    rw [List.all_eq_true]
+    intro e he
+    simp [(hcoupled e he).2.1, Policy.forced]
+  intro er herr
+  unfold tryAllocate at herr
+  have hhas : ∀ sols, hasResources s rq sols =
+      .ok (rq.all (entryHasResources s.pools s.concise), s.cache, sols) := by
+    intro sols
+    unfold hasResources
+    by_cases h1 : (!rq.all (entryHasResources s.pools s.concise)) = true
+    · rw [if_pos h1]
+      have : rq.all (entryHasResources s.pools s.concise) = false := by simpa using h1
+      rw [this]
+    · rw [if_neg h1]
+      dsimp only
+      rw [if_pos hnonforced]
+      have : rq.all (entryHasResources s.pools s.concise) = true := by simpa using h1
+      rw [this]
+  rw [hhas] at herr
+  cases hall : rq.all (entryHasResources s.pools s.concise) with
+  | false =>
+    rw [hall] at herr
+    cases hs : ch.sols with
+    | nil => rw [hs] at herr; simp at herr
+    | cons x xs => rw [hs] at herr; simp at herr; exact herr.symm
+  | true =>
+    rw [hall] at herr
+    dsimp only at herr
+    have hentries : ∀ e ∈ rq, entryHasResources s.pools s.concise e = true := List.all_eq_true.mp hall
+    -- the plain claims
+    have hclaims : NoStop (claimPlain ch s.pools rq []) := by
+      apply claimPlain_nostop hnd
+      intro e he
+      have hadm := hentries e he
+      cases hp : s.pools[e.rid]? with
+      | none => simp [entryHasResources, hp] at hadm
+      | some pool =>
+        refine ⟨pool, rfl, ?_⟩
+        cases pool with
+        | empty => exact absurd hp (hcap e he)
+        | indices full g => exact .inr (claim_indices_nostop (admitted_indices hinv hp hadm))
+        | sum full free => exact .inr (claim_sum_nostop (admitted_sum hinv hp hadm))
+        | groups full gs =>
+          rcases hpol e he full gs hp with h1 | h1 | h1
+          · exact .inr (claim_groups_all_nostop h1)
+          · exact .inr (claim_groups_scatter_nostop hinv hp h1 hadm)
+          · exact .inl (by simp [Pool.isGroups, h1, Policy.relevantForCoupling])
+    -- a claim result is needed for the rest of the operation
+    have hrest : ∀ {pools' al sols'}, claimResources s rq ch ch.sols = .ok (pools', al, sols') →
+        NoStop (match (Except.ok (pools', al, sols') : Except Stop _) with
+          | .error e => (.error e : Except Stop (Option Allocation × State))
+          | .ok (_, _, _ :: _) => .error .badChoice
+          | .ok (pools, al, []) =>
+            match conciseRemove s.concise al with
+            | .error e => .error e
+            | .ok concise => .ok (some al, { s with pools, concise, cache := s.cache, live := (h, al) :: s.live })) := by
+      intro pools' al sols' hcl
+      obtain ⟨cs', hcr⟩ := tryAllocate_after_claim hinv hU hcl
+      intro er' herr'
+      cases sols' with
+      | nil => simp [hcr] at herr'
+      | cons x xs => simp at herr'; exact herr'.symm
+    cases hcl : claimResources s rq ch ch.sols with
+    | ok v =>
+      obtain ⟨pools', al, sols'⟩ := v
+      rw [hcl] at herr
+      exact hrest hcl er herr
+    | error er' =>
+      rw [hcl] at herr
+      simp only [Except.error.injEq] at herr
+      subst herr
+      -- `claim_resources` itself
+      unfold claimResources at hcl
+      cases hcp : claimPlain ch s.pools rq [] with
+      | error er'' =>
+        rw [hcp] at hcl
+        simp only [Except.error.injEq] at hcl
+        subst hcl
+        exact hclaims _ hcp
+      | ok v =>
+        obtain ⟨pools1, al1⟩ := v
+        rw [hcp] at hcl
+        dsimp only at hcl
+        by_cases hce : (coupledEntries s.pools rq).isEmpty = true
+        · rw [if_pos hce] at hcl; cases hcl
+        · rw [if_neg hce] at hcl
+          cases hs : ch.sols with
+          | nil => rw [hs] at hcl; simp at hcl; exact hcl.symm
+          | cons r sols' =>
+            rw [hs] at hcl
+            dsimp only at hcl
+            -- the solver answer
+            have hfeas : (mkLp s.concise (coupledEntries s.pools rq) s.weights).optimum ≠ none := by
+              apply optimum_ne_none
+              intro x hx
+              simp only [mkLp, List.mem_map] at hx
+              obtain ⟨e, he, rfl⟩ := hx
+              obtain ⟨hin, -, full, gs, hp⟩ := hcoupled e he
+              have hr : e.rid < s.concise.length := by rw [hinv.concise.len]; exact lt_length_of_getElem? hp
+              obtain ⟨c, hc⟩ := exists_get hr
+              have hlink := groups_link hinv hp hc
+              have hadm := hentries e hin
+              have hle : e.amount ≤ c.maxAlloc := by
+                unfold entryHasResources at hadm
+                rw [hp] at hadm
+                simp only [hc, Option.getD_some, (hcoupled e he).2.1] at hadm
+                exact of_decide_eq_true hadm
+              have hf := admitted_feasible hlink.vals hle
+              have hcl' : (entryLp c e.amount).coefs.length = c.length := by
+                unfold entryLp
+                dsimp only
+                split <;> simp
+              refine ⟨List.range c.length, ?_, ?_⟩
+              · simp only [hc, Option.getD_some, hcl']
+                exact range_mem_allSubsets _
+              · simpa only [hc, Option.getD_some] using hf
+            cases hgs : groupSolver s.concise (coupledEntries s.pools rq) s.weights r with
+            | error e₁ =>
+              rw [hgs] at hcl
+              simp only [Except.error.injEq] at hcl
+              subst hcl
+              unfold groupSolver at hgs
+              dsimp only at hgs
+              rw [hw] at hgs
+              simp only [Bool.false_eq_true, if_false] at hgs
+              split at hgs
+              · cases hgs
+              · cases hgs; rfl
+            | ok o =>
+              rw [hgs] at hcl
+              cases o with
+              | none => exact absurd (groupSolver_none hgs).2 hfeas
+              | some sol =>
+                dsimp only at hcl
+                obtain ⟨-, hsolf, -, -⟩ := groupSolver_some hgs
+                have hcc : NoStop (claimCoupled ch pools1 (coupledEntries s.pools rq) sol.sets al1) := by
+                  apply claimCoupled_nostop (coupled_nodup hnd)
+                  intro x hx
+                  have hxe : x.1 ∈ coupledEntries s.pools rq := (List.of_mem_zip hx).1
+                  obtain ⟨hin, hcompact, full, gs, hp⟩ := hcoupled x.1 hxe
+                  -- the pool is still the one of the state
+                  have hsame : pools1[x.1.rid]? = s.pools[x.1.rid]? := by
+                    apply claimPlain_untouched hcp
+                    intro e' he' hr' pool' hp'
+                    rw [hp] at hp'
+                    cases hp'
+                    obtain ⟨i, hi⟩ := List.getElem?_of_mem he'
+                    obtain ⟨j, hj⟩ := List.getElem?_of_mem hin
+                    have : e' = x.1 := by
+                      have h1 : (rq.map (·.rid))[i]? = some e'.rid := by simp [hi]
+                      have h2 : (rq.map (·.rid))[j]? = some x.1.rid := by simp [hj]
+                      rw [hr'] at h1
+                      have hlt_i : i < (rq.map (·.rid)).length := lt_length_of_getElem? h1
+                      have hlt_j : j < (rq.map (·.rid)).length := lt_length_of_getElem? h2
+                      have hij : i = j := by
+                        apply (List.getElem_inj (h₀ := hlt_i) (h₁ := hlt_j) hnd).mp
+                        have a := List.getElem?_eq_getElem hlt_i
+                        have b := List.getElem?_eq_getElem hlt_j
+                        rw [h1] at a; rw [h2] at b
+                        exact Option.some.inj (a.symm.trans b)
+                      subst hij
+                      rw [hi] at hj
+                      exact Option.some.inj hj
+                    subst this
+                    simp [Pool.isGroups, hcompact, Policy.relevantForCoupling]
+                  refine ⟨.groups full gs, by rw [hsame]; exact hp, ?_⟩
+                  have hr : x.1.rid < s.concise.length := by
+                    rw [hinv.concise.len]; exact lt_length_of_getElem? hp
+                  obtain ⟨c, hc⟩ := exists_get hr
+                  have hlink := groups_link hinv hp hc
+                  -- the set is feasible for this entry
+                  have hfx : (entryLp c x.1.amount).feasible x.2 = true := by
+                    simp only [Lp.feasible, Bool.and_eq_true, List.all_eq_true] at hsolf
+                    have hz := hsolf.2
+                    -- x ∈ coupled.zip sets ⇒ ((rid, lp), S) ∈ entries.zip sets
+                    obtain ⟨k, hk⟩ := List.getElem?_of_mem hx
+                    have hk1 : (coupledEntries s.pools rq)[k]? = some x.1 := by
+                      have := hk
+                      simp only [List.getElem?_zip_eq_some] at this
+                      exact this.1
+                    have hk2 : sol.sets[k]? = some x.2 := by
+                      have := hk
+                      simp only [List.getElem?_zip_eq_some] at this
+                      exact this.2
+                    have hmem : ((x.1.rid, entryLp (s.concise[x.1.rid]?.getD []) x.1.amount), x.2) ∈
+                        (mkLp s.concise (coupledEntries s.pools rq) s.weights).entries.zip sol.sets := by
+                      apply List.mem_of_getElem? (i := k)
+                      simp only [mkLp, List.getElem?_zip_eq_some, List.getElem?_map, hk1, Option.map_some, hk2,
+                        and_self]
+                    have := hz _ hmem
+                    simpa only [hc, Option.getD_some] using this
+                  exact claimWithMask_compact_nostop hlink (.inl hcompact) hfx
+                cases hcr : claimCoupled ch pools1 (coupledEntries s.pools rq) sol.sets al1 with
+                | error e₂ =>
+                  rw [hcr] at hcl
+                  simp only [Except.error.injEq] at hcl
+                  subst hcl
+                  exact hcc _ hcr
+                | ok v => rw [hcr] at hcl; cases hcl
 
 end HqModel.Alloc
